@@ -19,10 +19,12 @@ var selftestLines []string
 
 func selftest(args []string) int {
 	selftestLines = nil
-	only, onlyKind := "", ""
+	only, onlyKind, onlyName := "", "", ""
 	for _, a := range args {
 		if a == "mutants" || a == "refactors" {
 			onlyKind = a
+		} else if strings.HasPrefix(a, "name=") {
+			onlyName = a[5:] // substring of the diff's file name, e.g. name=seed-M
 		} else {
 			only = a
 		}
@@ -40,6 +42,9 @@ func selftest(args []string) int {
 		for _, f := range files {
 			prop := filepath.Base(filepath.Dir(f))
 			if only != "" && only != prop {
+				continue
+			}
+			if onlyName != "" && !strings.Contains(filepath.Base(f), onlyName) {
 				continue
 			}
 			jobs = append(jobs, job{kind, prop, f})
